@@ -146,6 +146,11 @@ def actOut (files : List FileEnt) (a : Act) : FrameOut :=
 def trace (files : List FileEnt) (limit : Int) (sc : Scenario) : List FrameOut :=
   applyLimit limit ((acts "" false 0 sc.levels (raiseOff sc.raise)).reverse.map (actOut files))
 
+/-- an error's trace is a fact about the moment it was created: whenever it is read – after later errors were
+    created and caught, in a later Run, from Go – it is the trace of its own creation -/
+def tracesLater (files : List FileEnt) (limit : Int) (scs : List Scenario) : List (List FrameOut) :=
+  scs.map (trace files limit)
+
 /-- the trace limit is part of a runtime's configuration and `Copy()` yields an equivalent runtime: a copy (of a
     copy …) cuts traces at the limit configured on the original -/
 def traceCount (configured : Int) (depth : Nat) : Nat :=
